@@ -28,8 +28,15 @@ def _ssum(xs):
 def ob_distribution(cx):
     """L1: pack_distribution / _max_pack_count for every total with up to D digits."""
     R, c = _coll(cx)
-    nd = cx.choose("ndigits", 1, cx.p("digits"))
-    total = cx.int("total", 0 if nd == 1 else 10 ** (nd - 1), 10 ** nd - 1)
+    if cx.p("digits"):
+        nd = cx.choose("ndigits", 1, cx.p("digits"))
+        total = cx.int("total", 0 if nd == 1 else 10 ** (nd - 1), 10 ** nd - 1)
+    else:
+        # totals around the powers of ten far beyond the exhaustive range: d * 10^k + r and d * 10^k - r
+        k = cx.choose("exponent", 3, cx.p("maxexp"))
+        d = cx.int("lead", 1, 9)
+        r = cx.int("rest", -cx.p("maxrest"), cx.p("maxrest"))
+        total = d * 10 ** k + r
     dist = c.pack_distribution(total)
     m = c._max_pack_count(total)
     if cx.truth(total == 0):
@@ -128,10 +135,14 @@ def ob_glue(cx):
 def obligations(tier):
     q = tier == "quick"
     p1 = dict(digits=3 if q else 5)
+    p1r = dict(digits=0, maxexp=6 if q else 15, maxrest=2 if q else 11)
     p2 = dict(n=4 if q else 5, m=3 if q else 5)
     p3 = dict(gn=3 if q else 4, gmax=30 if q else 60)
     to = 900 if q else 7200
     return [
+        Ob("L1_round_totals", ob_distribution, [PR], p1r, to, 1, ["positive"],
+           bounds="totals d * 10^k + r with d 1..9, k 3..%(maxexp)d, r -%(maxrest)d..%(maxrest)d (neighbourhoods of the round "
+                  "totals beyond the exhaustive range)" % p1r),
         Ob("L1_distribution", ob_distribution, [PR], p1, to, 1, ["zero", "positive"],
            bounds="every total with <= %d decimal digits" % p1["digits"]),
         Ob("L2_planner", ob_planner, [PR], p2, to, 1 if not q else 2, ["within", "combine"],
